@@ -97,72 +97,81 @@ func (r *TimeRange) isInWeekdays(day time.Weekday) bool {
 	return true
 }
 
-func (r *TimeRange) addWeekdayOffset(day time.Weekday, offset int) time.Weekday {
-	return (day + time.Weekday(offset%7) + 7) % 7
+// instants returns the first and the last instant at which a clock in loc reads tod on the calendar
+// day y-m-d (d may be out of range, it is normalised). Normally they coincide. A reading that a
+// fall-back repeats has two; a reading that a spring-forward skips has none, and both results are
+// the instant of the jump.
+func instants(y int, m time.Month, d int, tod TimeOfDay, loc *time.Location) (first, last time.Time) {
+	wall := time.Date(y, m, d, tod.hour, tod.minute, tod.second, 0, time.UTC)
+	_, offBefore := wall.Add(-24 * time.Hour).In(loc).Zone()
+	_, offAfter := wall.Add(24 * time.Hour).In(loc).Zone()
+	a := wall.Add(-time.Duration(offBefore) * time.Second)
+	b := wall.Add(-time.Duration(offAfter) * time.Second)
+	reads := func(t time.Time) bool {
+		t = t.In(loc)
+		yy, mm, dd := t.Date()
+		h, mi, s := t.Clock()
+		return yy == wall.Year() && mm == wall.Month() && dd == wall.Day() && h == tod.hour && mi == tod.minute && s == tod.second
+	}
+	switch okA, okB := reads(a), reads(b); {
+	case okA && okB:
+		if b.Before(a) {
+			a, b = b, a
+		}
+		return a, b
+	case okA:
+		return a, a
+	case okB:
+		return b, b
+	}
+	// skipped reading: the earlier candidate lies before the jump, its zone period ends at the jump
+	if b.Before(a) {
+		a = b
+	}
+	_, jump := a.In(loc).ZoneBounds()
+	if jump.IsZero() {
+		jump = a
+	}
+	return jump, jump
 }
 
-func (r *TimeRange) isInTimeRange(t time.Time) bool {
+// window returns the window that contains t: it opens at the first instant that reads StartTime on
+// the opening day and closes after the last instant that reads EndTime on the closing day.
+func (r *TimeRange) window(t time.Time) (open, end time.Time, ok bool) {
 	t = t.In(r.loc)
-	ts := NewTimeOfDay(t.Clock()).d
-
-	if r.startTime.d < r.endTime.d {
-		if r.isInWeekdays(t.Weekday()) {
-			return r.startTime.d <= ts && ts <= r.endTime.d
-		}
-
-		return false
+	y, m, d := t.Date()
+	back := 1
+	if r.startDay != nil {
+		back = 7
 	}
-
-	if ts <= r.endTime.d {
-		return r.isInWeekdays(r.addWeekdayOffset(t.Weekday(), -1))
-	}
-
-	if ts >= r.startTime.d {
-		return r.isInWeekdays(t.Weekday())
-	}
-
-	return false
-}
-
-func (r *TimeRange) isInWeekRange(t time.Time) bool {
-	t = t.In(r.loc)
-	day := t.Weekday()
-
-	if *r.startDay == *r.endDay {
-		if day == *r.startDay {
-			return r.isInTimeRange(t)
+	// candidates newest first: in the second that a closing and an opening window share, the opening one wins
+	for i := -1; i <= back+1; i++ {
+		day := time.Date(y, m, d-i, 12, 0, 0, 0, time.UTC)
+		span := 0
+		if r.startDay == nil {
+			if !r.isInWeekdays(day.Weekday()) {
+				continue
+			}
+			if r.startTime.d >= r.endTime.d {
+				span = 1
+			}
+		} else {
+			if day.Weekday() != *r.startDay {
+				continue
+			}
+			span = (int(*r.endDay) - int(*r.startDay) + 7) % 7
+			if span == 0 && r.startTime.d >= r.endTime.d {
+				span = 7
+			}
 		}
-
-		if r.startTime.d < r.endTime.d {
-			return false
-		}
-
-		return true
-	}
-
-	switch {
-	case *r.startDay < *r.endDay:
-		if day < *r.startDay || *r.endDay < day {
-			return false
-		}
-
-	default:
-		if *r.endDay < day && day < *r.startDay {
-			return false
+		open, _ = instants(day.Year(), day.Month(), day.Day(), r.startTime, r.loc)
+		_, end = instants(day.Year(), day.Month(), day.Day()+span, r.endTime, r.loc)
+		end = end.Add(time.Second) // the whole EndTime second belongs to the window, as before
+		if !t.Before(open) && t.Before(end) {
+			return open, end, true
 		}
 	}
-
-	timeOfDay := NewTimeOfDay(t.Clock())
-
-	if day == *r.startDay {
-		return timeOfDay.d >= r.startTime.d
-	}
-
-	if day == *r.endDay {
-		return timeOfDay.d <= r.endTime.d
-	}
-
-	return true
+	return time.Time{}, time.Time{}, false
 }
 
 // IsInRange returns true if time t is within in the time range.
@@ -170,12 +179,8 @@ func (r *TimeRange) IsInRange(t time.Time) bool {
 	if r == nil {
 		return true
 	}
-
-	if r.startDay != nil {
-		return r.isInWeekRange(t)
-	}
-
-	return r.isInTimeRange(t)
+	_, _, ok := r.window(t)
+	return ok
 }
 
 // IsInSameRange determines if two points in time are in the same time range.
@@ -183,40 +188,7 @@ func (r *TimeRange) IsInSameRange(t1, t2 time.Time) bool {
 	if r == nil {
 		return true
 	}
-
-	if !(r.IsInRange(t1) && r.IsInRange(t2)) {
-		return false
-	}
-
-	if t2.Before(t1) {
-		t1, t2 = t2, t1
-	}
-
-	t1 = t1.In(r.loc)
-	t1Time := NewTimeOfDay(t1.Clock())
-	dayOffset := 0
-
-	if r.endDay == nil {
-		if r.startTime.d >= r.endTime.d && t1Time.d >= r.startTime.d {
-			dayOffset = 1
-		}
-	} else {
-		switch {
-		case *r.endDay < t1.Weekday():
-			dayOffset = 7 + int(*(r.endDay)-t1.Weekday())
-
-		case t1.Weekday() == *r.endDay:
-			if r.endTime.d <= t1Time.d {
-				dayOffset = 7
-			}
-
-		default:
-			dayOffset = int(*(r.endDay) - t1.Weekday())
-		}
-	}
-
-	sessionEnd := time.Date(t1.Year(), t1.Month(), t1.Day(), r.endTime.hour, r.endTime.minute, r.endTime.second, 0, r.loc)
-	sessionEnd = sessionEnd.AddDate(0, 0, dayOffset)
-
-	return t2.Before(sessionEnd)
+	o1, _, ok1 := r.window(t1)
+	o2, _, ok2 := r.window(t2)
+	return ok1 && ok2 && o1.Equal(o2)
 }
